@@ -2,7 +2,7 @@
 """Evaluate a seeded change: confirm it (tests pass, demo fails with / passes without the change), store it under
 /verif/seeded/<name>/, and run the given checks against the changed tree.
 
-usage: tools/seed_eval.py <name> <worktree> <property> [more properties] [--tier quick|thorough] [--in-repo]
+usage: tools/seed_eval.py <name> <worktree|from-patch> <property> [more properties] [--tier quick|thorough] [--in-repo]
   default: the checks run with VERIF_REPO=<worktree> (evidence redirected to a scratch directory)
   --in-repo: apply patch.diff to /repo, run the checks there, and undo it (git checkout -- .)"""
 import json
@@ -29,6 +29,22 @@ def main():
         tier = sys.argv[sys.argv.index('--tier') + 1]
         props = [p for p in props if p != tier]
     in_repo = '--in-repo' in sys.argv
+    if wt == 'from-patch':
+        # no scratch worktree of the author left: rebuild one from the stored patch (demo.py is stored next to it)
+        wt = tempfile.mkdtemp(prefix='seed-re-')
+        os.rmdir(wt)
+        sh('git -C /repo worktree add -q %s HEAD' % wt)
+        d0 = os.path.join(VERIF, 'seeded', name)
+        rc, o = sh('git apply %s/patch.diff' % d0, cwd=wt)
+        assert rc == 0, o
+        for f in ('demo.py',):
+            if os.path.exists(os.path.join(d0, f)):
+                shutil.copy(os.path.join(d0, f), os.path.join(wt, f))
+        try:
+            sys.argv[sys.argv.index('from-patch')] = wt
+            return main()
+        finally:
+            sh('git -C /repo worktree remove --force %s' % wt)
     out = {'name': name, 'worktree': wt, 'ran': []}
     rc, o = sh('/venv/bin/python -m pytest -q -p no:cacheprovider 2>&1 | tail -1', cwd=wt)
     out['tests_with_change'] = o.strip()
